@@ -826,4 +826,187 @@ theorem structSpec_names {β : Type} {de : List Nat → Ty → β → Except Err
         subst h
         simp [ih hr]
 
+
+/-! ### scalars: print then parse -/
+
+theorem parseSigned_of_digit_head {d : Nat} (rest : List Nat) (bits : Nat) (h1 : 48 ≤ d) :
+    parseSigned bits (d :: rest) = (parseUnsigned (2 ^ (bits - 1) - 1) (d :: rest)).map (fun n => (n : Int)) := by
+  unfold parseSigned
+  split
+  · rename_i heq
+    simp only [List.cons.injEq] at heq
+    omega
+  · rfl
+
+theorem parseSigned_neg (bits : Nat) (ds : List Nat) :
+    parseSigned bits (45 :: ds) = (parseDigits (2 ^ (bits - 1)) ds).map (fun n => -(n : Int)) := by
+  simp [parseSigned]
+
+theorem parseSigned_intDigits (bits : Nat) (z : Int) :
+    parseSigned bits (intDigits z) =
+      if -((2 ^ (bits - 1) : Nat) : Int) ≤ z ∧ z < ((2 ^ (bits - 1) : Nat) : Int) then some z else none := by
+  have hP : 1 ≤ 2 ^ (bits - 1) := Nat.one_le_two_pow
+  unfold intDigits
+  by_cases hz : z < 0
+  · simp only [hz, if_true]
+    rw [parseSigned_neg, parseDigits_decDigits]
+    generalize 2 ^ (bits - 1) = P at hP
+    have hn : (z.natAbs : Int) = -z := Int.ofNat_natAbs_of_nonpos (by omega)
+    by_cases hle : z.natAbs ≤ P
+    · have hc : -(P : Int) ≤ z ∧ z < (P : Int) := by omega
+      simp only [hle, hc, if_true, and_self]
+      simp
+      omega
+    · have hc : ¬ (-(P : Int) ≤ z ∧ z < (P : Int)) := by omega
+      simp [hle, hc]
+  · simp only [hz, if_false]
+    obtain ⟨d, rest, h, h1, _⟩ := decDigits_head z.natAbs
+    rw [h, parseSigned_of_digit_head rest bits h1, ← h, parseUnsigned_decDigits]
+    generalize 2 ^ (bits - 1) = P at hP
+    have hn : (z.natAbs : Int) = z := Int.natAbs_of_nonneg (by omega)
+    by_cases hle : z.natAbs ≤ P - 1
+    · have hc : -(P : Int) ≤ z ∧ z < (P : Int) := by omega
+      simp only [hle, hc, if_true, and_self]
+      simp
+      exact hn
+    · have hc : ¬ (-(P : Int) ≤ z ∧ z < (P : Int)) := by omega
+      simp [hle, hc]
+
+theorem decDigits_ascii (n : Nat) : ∀ b ∈ decDigits n, 48 ≤ b ∧ b ≤ 57 := by
+  induction n using Nat.strongRecOn with
+  | _ n ih =>
+    rw [decDigits]
+    split
+    · intro b hb
+      simp only [List.mem_cons, List.mem_nil_iff, or_false] at hb
+      omega
+    · intro b hb
+      rcases List.mem_append.mp hb with h | h
+      · exact ih (n / 10) (by omega) b h
+      · simp only [List.mem_cons, List.mem_nil_iff, or_false] at h
+        omega
+
+theorem utf8DecodeAux_ascii : ∀ (bs : List Nat) (fuel : Nat), bs.length ≤ fuel → (∀ b ∈ bs, b < 128) →
+    utf8DecodeAux fuel bs = some bs := by
+  intro bs
+  induction bs with
+  | nil => intro fuel _ _; cases fuel <;> simp [utf8DecodeAux]
+  | cons b r ih =>
+    intro fuel hf hb
+    cases fuel with
+    | zero => simp at hf
+    | succ fuel =>
+      have hlt : b < 128 := hb b (List.mem_cons_self ..)
+      simp only [utf8DecodeAux, utf8Step, hlt, if_true, Nat.sub_self, List.drop_zero]
+      rw [ih fuel (by simpa using hf) (fun x hx => hb x (List.mem_cons_of_mem _ hx))]
+
+theorem utf8Valid_ascii {bs : List Nat} (h : ∀ b ∈ bs, b < 128) : utf8Valid bs = true := by
+  simp [utf8Valid, utf8Decode, utf8DecodeAux_ascii bs bs.length (Nat.le_refl _) h]
+
+theorem parseScalar_print_u (bits : Nat) (owned : Bool) (z : Int) (h : 0 ≤ z ∧ z < ((2 ^ bits : Nat) : Int)) :
+    parseScalar (.u bits) owned (printSVal (.int z)) = some (.int z) := by
+  have hP : 1 ≤ 2 ^ bits := Nat.one_le_two_pow
+  simp only [parseScalar, printSVal, intDigits]
+  have hz : ¬ z < 0 := by omega
+  simp only [hz, if_false, parseUnsigned_decDigits]
+  generalize 2 ^ bits = P at h hP
+  have hn : (z.natAbs : Int) = z := Int.natAbs_of_nonneg h.1
+  have hle : z.natAbs ≤ P - 1 := by omega
+  simp only [hle, if_true]
+  simp
+  exact hn
+
+theorem parseScalar_print_i (bits : Nat) (owned : Bool) (z : Int)
+    (h : -((2 ^ (bits - 1) : Nat) : Int) ≤ z ∧ z < ((2 ^ (bits - 1) : Nat) : Int)) :
+    parseScalar (.i bits) owned (printSVal (.int z)) = some (.int z) := by
+  simp only [parseScalar, printSVal, parseSigned_intDigits, h, and_self, if_true, Option.map_some]
+
+
+/-! ### `char`: encode then parse -/
+
+theorem parseChar_utf8Encode (c : Nat) (h : isScalar c = true) : parseChar (utf8Encode c) = some c := by
+  simp only [isScalar, Bool.or_eq_true, Bool.and_eq_true, decide_eq_true_eq] at h
+  unfold utf8Encode
+  by_cases h1 : c < 128
+  · simp [h1, parseChar, utf8Decode, utf8DecodeAux, utf8Step]
+  · by_cases h2 : c < 2048
+    · have a1 : ¬ (192 + c / 64 < 128) := by omega
+      have a2 : 194 ≤ 192 + c / 64 := by omega
+      have a3 : 192 + c / 64 ≤ 223 := by omega
+      have a4 : 128 ≤ 128 + c % 64 := by omega
+      have a5 : 128 + c % 64 ≤ 191 := by omega
+      have a6 : (192 + c / 64 - 192) * 64 + (128 + c % 64 - 128) = c := by omega
+      simp [h1, h2, parseChar, utf8Decode, utf8DecodeAux, utf8Step, isCont, a1, a2, a3, a4, a5]
+      omega
+    · by_cases h3 : c < 65536
+      · have a1 : ¬ (224 + c / 4096 < 128) := by omega
+        have a2 : ¬ (224 + c / 4096 ≤ 223) := by omega
+        have a3 : 224 ≤ 224 + c / 4096 := by omega
+        have a4 : 224 + c / 4096 ≤ 239 := by omega
+        have a5 : 128 ≤ 128 + c % 64 := by omega
+        have a6 : 128 + c % 64 ≤ 191 := by omega
+        have a7 : 128 ≤ 128 + c / 64 % 64 := by omega
+        have a8 : 128 + c / 64 % 64 ≤ 191 := by omega
+        have a9 : ((224 + c / 4096 - 224) * 64 + (128 + c / 64 % 64 - 128)) * 64 + (128 + c % 64 - 128) = c := by omega
+        have s3 : second3 (224 + c / 4096) (128 + c / 64 % 64) = true := by
+          unfold second3
+          by_cases e1 : 224 + c / 4096 = 224
+          · have : 160 ≤ 128 + c / 64 % 64 := by omega
+            simp [e1, this, a8]
+          · by_cases e2 : 224 + c / 4096 = 237
+            · have : 128 + c / 64 % 64 ≤ 159 := by omega
+              simp [e1, e2, this, a7]
+            · simp [e1, e2, isCont, a7, a8]
+              try omega
+        simp [h1, h2, h3, parseChar, utf8Decode, utf8DecodeAux, utf8Step, isCont, a1, a2, a3, a4, a5, a6, s3]
+        omega
+      · have a1 : ¬ (240 + c / 262144 < 128) := by omega
+        have a2 : ¬ (240 + c / 262144 ≤ 223) := by omega
+        have a3 : ¬ (240 + c / 262144 ≤ 239) := by omega
+        have a4 : 240 ≤ 240 + c / 262144 := by omega
+        have a5 : 240 + c / 262144 ≤ 244 := by omega
+        have b1 : 128 ≤ 128 + c % 64 := by omega
+        have b2 : 128 + c % 64 ≤ 191 := by omega
+        have b3 : 128 ≤ 128 + c / 64 % 64 := by omega
+        have b4 : 128 + c / 64 % 64 ≤ 191 := by omega
+        have b5 : 128 ≤ 128 + c / 4096 % 64 := by omega
+        have b6 : 128 + c / 4096 % 64 ≤ 191 := by omega
+        have a9 : (((240 + c / 262144 - 240) * 64 + (128 + c / 4096 % 64 - 128)) * 64 + (128 + c / 64 % 64 - 128)) * 64 +
+            (128 + c % 64 - 128) = c := by omega
+        have s4 : second4 (240 + c / 262144) (128 + c / 4096 % 64) = true := by
+          unfold second4
+          by_cases e1 : 240 + c / 262144 = 240
+          · have : 144 ≤ 128 + c / 4096 % 64 := by omega
+            simp [e1, this, b6]
+          · by_cases e2 : 240 + c / 262144 = 244
+            · have : 128 + c / 4096 % 64 ≤ 143 := by omega
+              simp [e1, e2, this, b5]
+            · simp [e1, e2, isCont, b5, b6]
+              try omega
+        simp [h1, h2, h3, parseChar, utf8Decode, utf8DecodeAux, utf8Step, isCont, a1, a2, a3, a4, a5, b1, b2, b3, b4, s4]
+        omega
+
+
+theorem parseScalar_print (t : STy) (owned : Bool) (v : SVal) (h : SValOk t v) :
+    parseScalar t owned (printSVal v) = some v := by
+  cases t <;> cases v <;> simp only [SValOk] at h
+  · exact parseScalar_print_u _ owned _ h
+  · exact parseScalar_print_i _ owned _ h.2
+  · rename_i b
+    cases b <;> simp [parseScalar, printSVal, parseBool]
+  · rename_i c
+    simp [parseScalar, printSVal, parseChar_utf8Encode c h]
+  · simp [parseScalar, printSVal]
+  · simp [parseScalar, printSVal]
+
+theorem structSpec_of_all {β : Type} {de : List Nat → Ty → β → Except Err Val} {dps : List (List Nat × β)}
+    (g : Field → Val) : ∀ (fs : List Field), (∀ f ∈ fs, fieldSpec de dps f = .ok (g f)) →
+    structSpec de dps fs = some (fs.map (fun f => (f.name, g f))) := by
+  intro fs
+  induction fs with
+  | nil => intro _; rfl
+  | cons f fs ih =>
+    intro h
+    simp only [structSpec, h f (List.mem_cons_self ..), ih (fun x hx => h x (List.mem_cons_of_mem _ hx)), List.map_cons]
+
 end Pxv.ReqData
